@@ -30,6 +30,7 @@ FEATURES = [
     'drizzle',
     'thresholds_tiny',     # everything above threshold
     'thresholds_huge',     # nothing above threshold
+    'threshold_zero',      # a threshold of exactly 0 (any rain is a storm / any increase is a rise)
     'half_rate',           # water level sampled every second step
     'misaligned',          # water level on another step (2/3 of the rain step), interpolated by load
     'fine_offgrid_gap',    # water level at half the rain step with single off-grid readings missing
@@ -299,6 +300,11 @@ def gen(rng, force=None, dyadic=None, max_segments=10):
         sthr = jthr = 1e-12
     elif force == 'thresholds_huge':
         sthr = jthr = 1e12
+    elif force == 'threshold_zero':
+        if rng.random() < 0.5:
+            sthr = 0.0
+        else:
+            jthr = 0.0
     case = {
         'kind': 'series',
         'step': step,
